@@ -4,6 +4,13 @@
 //! well-formed list of at most N nodes and every choice of argument node.
 //!
 //! This file is compiled only under `cfg(kani)` as a child module of the list module (private fields visible).
+//! GROUP: list
+//! MODULE: intrusive_double_linked_list::kani_verif
+//! TAGS: C20
+//! N: quick=3 thorough=4
+//! UNWIND_EXTRA: 3
+//! KIND: harness (assume pre / assert post of the in-place contract)
+//! BOUNDED: lists of <= N nodes
 use super::*;
 
 /// bound on the number of nodes (set by the runner through the environment at build time)
@@ -399,6 +406,7 @@ fn plain_peeks_and_is_empty() {
 }
 
 // ---------------- function-contract harnesses on the same predicates (thorough tier) ----------------
+// TIER: thorough
 #[kani::proof_for_contract(LinkedList::remove)]
 fn contract_remove() {
     let mut a = arena();
@@ -413,6 +421,7 @@ fn contract_remove() {
     }
 }
 
+// TIER: thorough
 #[kani::proof_for_contract(LinkedList::add_front)]
 fn contract_add_front() {
     let mut a = arena();
@@ -425,6 +434,7 @@ fn contract_add_front() {
     }
 }
 
+// TIER: thorough
 #[kani::proof_for_contract(LinkedList::remove_first)]
 fn contract_remove_first() {
     let mut a = arena();
@@ -433,6 +443,7 @@ fn contract_remove_first() {
     let _ = list.remove_first();
 }
 
+// TIER: thorough
 #[kani::proof_for_contract(LinkedList::remove_last)]
 fn contract_remove_last() {
     let mut a = arena();
@@ -441,6 +452,7 @@ fn contract_remove_last() {
     let _ = list.remove_last();
 }
 
+// TIER: thorough
 #[kani::proof_for_contract(LinkedList::peek_last_mut)]
 fn contract_peek_last_mut() {
     let mut a = arena();
@@ -449,6 +461,7 @@ fn contract_peek_last_mut() {
     let _ = list.peek_last_mut();
 }
 
+// TIER: thorough
 #[kani::proof_for_contract(LinkedList::peek_first_mut)]
 fn contract_peek_first_mut() {
     let mut a = arena();
@@ -457,6 +470,7 @@ fn contract_peek_first_mut() {
     let _ = list.peek_first_mut();
 }
 
+// TIER: thorough
 #[kani::proof_for_contract(LinkedList::peek_first)]
 fn contract_peek_first() {
     let mut a = arena();
@@ -465,6 +479,7 @@ fn contract_peek_first() {
     let _ = list.peek_first();
 }
 
+// TIER: thorough
 #[kani::proof_for_contract(LinkedList::peek_last)]
 fn contract_peek_last() {
     let mut a = arena();
@@ -473,6 +488,7 @@ fn contract_peek_last() {
     let _ = list.peek_last();
 }
 
+// TIER: thorough
 #[kani::proof_for_contract(LinkedList::is_empty)]
 fn contract_is_empty() {
     let mut a = arena();
